@@ -125,6 +125,12 @@ func c18Scan(e *Engine) (*c18Info, error) {
 					if !ok || fa.Field != svcIdx || !isAPIPtr(fa.X.Type()) {
 						continue
 					}
+					if strings.HasPrefix(shortFile(e.prog.Fset.Position(x.Pos()).Filename), "zz_verif_") {
+						// a harness (overlay file, not part of the tree under test) building an
+						// []rpc.API from the generated tables (node.VerifC18_Transports): it
+						// re-registers receivers this scan already produced, not a service of the node
+						continue
+					}
 					pos := e.prog.Fset.Position(x.Pos()).String()
 					ns := "?"
 					// namespace: a constant stored to the Namespace field of the same struct address
